@@ -17,14 +17,12 @@ theorem mem_take_of_getElem? {β : Type} {l : List β} {k n : Nat} {x : β} (hk 
 
 /-- after a successful alignment the first `pl` scorers sit on the pivot -/
 theorem align_true_on_pivot {θ : Nat} {arr : List S} {bl pl pd : Nat} (hshape : PivotShape θ arr bl pl pd)
-    (hwf : ∀ x, x ∈ shallow arr pl pd → WF x) {arr2 : List S}
-    (halign : alignScorers (shallow arr pl pd) pd bl = (arr2, true)) :
+    {arr2 : List S}
+    (hb : arr2.length = (shallow arr pl pd).length ∧ (∀ k, k < bl → ∃ s, arr2[k]? = some s ∧ s.doc = pd) ∧
+      arr2.drop bl = (shallow arr pl pd).drop bl) :
     arr2.length = (shallow arr pl pd).length ∧ ∀ x, x ∈ arr2.take pl → x.doc = pd := by
   obtain ⟨pre, s, mid, suf, hl, hbl, hpl, hsd, hmid, hsuf, _, _⟩ := hshape.split
-  have hblle : bl ≤ (shallow arr pl pd).length := by
-    unfold shallow; rw [length_append, length_map, length_take, length_drop, hl]; simp; omega
-  obtain ⟨_, _, hb⟩ := align_spec (lo := 0) pd bl (shallow arr pl pd) ⟨hwf, fun _ _ _ _ => Nat.zero_le _⟩ hblle arr2 true halign
-  obtain ⟨hlen, hprefix, hdrop⟩ := hb rfl
+  obtain ⟨hlen, hprefix, hdrop⟩ := hb
   refine ⟨hlen, ?_⟩
   have harr1 : shallow arr pl pd = pre.map (·.seekBlock pd) ++ ((s :: mid).map (·.seekBlock pd) ++ suf) := by
     unfold shallow
@@ -67,8 +65,7 @@ theorem wandLoop_completes {σ : Type} {cb : σ → Nat → Nat → σ × Nat} {
     | some r =>
       obtain ⟨bl, pl, pd⟩ := r
       simp only
-      have hwfarr : ∀ x, x ∈ arr → WF x := fun x hx => (hinv.wf x hx).wf
-      have hshape := findPivotDoc_some hinv.sorted hwfarr hp
+      have hshape := findPivotDoc_some_lt hinv.sorted (fun x hx => (hinv.wf x hx).lt) hp
       have hP := pivot_ge hinv hp
       have hpd := hshape.lt
       obtain ⟨hinv1, hpre1, hsuf1⟩ := shallow_tinv hinv hshape hP
@@ -124,7 +121,7 @@ theorem wandLoop_completes {σ : Type} {cb : σ → Nat → Nat → σ × Nat} {
               · omega
               · have := hmid z hz; omega
             · have := hsuf y hy; omega
-          obtain ⟨a1, a2, a3, a4, a5⟩ := align_total pd hpd bl (shallow arr pl pd) hbl hinv1.sorted hinv1.wf hinv1.j
+          obtain ⟨a1, a2, a3, a4, a5, a6⟩ := align_total pd hpd bl (shallow arr pl pd) hbl hinv1.sorted hinv1.wf hinv1.j
             htk hdr arr2 b halign
           cases b with
           | false =>
@@ -134,7 +131,7 @@ theorem wandLoop_completes {σ : Type} {cb : σ → Nat → Nat → σ × Nat} {
               ⟨q1, a1, a2, fun d hd => Nat.le_trans (a3 d) (hinv1.dead d hd)⟩ (by omega)
           | true =>
             simp only
-            obtain ⟨hl2, hon⟩ := align_true_on_pivot hshape (fun x hx => (hinv1.wf x hx).wf) halign
+            obtain ⟨hl2, hon⟩ := align_true_on_pivot hshape (a6 rfl)
             -- the state after the callback: thresholds never decrease
             have hst : ∃ s' θ', (if Sc.gt (sumBy TS.score (arr2.take pl)) θ = true then cb s pd (sumBy TS.score (arr2.take pl)) else (s, θ)) = (s', θ')
                 ∧ R s' θ' ∧ θ ≤ θ' := by
@@ -158,14 +155,14 @@ theorem lenSum_filter_le (q : S → Bool) : ∀ (l : List S), lenSum (l.filter q
     · rw [filter_cons_of_pos hx, lenSum_cons, lenSum_cons]; omega
     · rw [filter_cons_of_neg hx, lenSum_cons]; omega
 
-/-- `block_wand` (mirrored) COMPLETES and is right: on fresh scorers (skip readers on their first
-block) and with a fuel larger than the number of postings the loop ends with `.ok`, in the state of
-the exhaustive loop -/
-theorem blockWand_total {σ : Type} {cb : σ → Nat → Nat → σ × Nat} {R : σ → Nat → Prop}
+/-- `block_wand` (mirrored) COMPLETES — no bound hypothesis needed: on fresh scorers (skip readers on
+their first block) with ascending postings and full blocks below `TERMINATED`, and a fuel larger
+than the number of postings, the loop ends with `.ok` for every callback with non-decreasing
+thresholds -/
+theorem blockWand_completes {σ : Type} {cb : σ → Nat → Nat → σ × Nat} {R : σ → Nat → Prop}
     (hcb : MonoCb cb R) (fuel : Nat) (s : σ) (θ : Nat) (hR : R s θ) (scorers : List S)
-    (hwf : ∀ x, x ∈ scorers → WFT x) (hfresh : ∀ x, x ∈ scorers → x.skip = 0)
-    (hfuel : lenSum scorers < fuel) :
-    blockWand cb fuel (s, θ) scorers = .ok (exhRange cb (tot scorers) 0 T (s, θ)) := by
+    (hwf : ∀ x, x ∈ scorers → WFC x) (hfresh : ∀ x, x ∈ scorers → x.skip = 0)
+    (hfuel : lenSum scorers < fuel) : ∃ out, blockWand cb fuel (s, θ) scorers = .ok out := by
   have hsub : ∀ x, x ∈ sortByDoc (scorers.filter (fun s => decide (s.doc < T))) → x ∈ scorers :=
     fun x hx => (mem_filter.mp ((sortByDoc_perm _).subset hx)).1
   have hinv : TInv 0 θ (sortByDoc (scorers.filter (fun s => decide (s.doc < T)))) :=
@@ -175,9 +172,23 @@ theorem blockWand_total {σ : Type} {cb : σ → Nat → Nat → σ × Nat} {R :
   have hlen : lenSum (sortByDoc (scorers.filter (fun s => decide (s.doc < T)))) ≤ lenSum scorers := by
     rw [lenSum_perm (sortByDoc_perm _)]
     exact lenSum_filter_le _ scorers
-  obtain ⟨out, hout⟩ : ∃ out, blockWand cb fuel (s, θ) scorers = .ok out := by
-    unfold blockWand
-    exact wandLoop_completes hcb fuel s θ _ 0 hR hinv (by omega)
+  unfold blockWand
+  exact wandLoop_completes hcb fuel s θ _ 0 hR hinv (by omega)
+
+/-- `WF` plus: the full blocks end below `TERMINATED` -/
+structure WFT (x : S) : Prop where
+  wf : WF x
+  blocksLt : ∀ b, b ∈ x.blocks → b.1 < T
+
+theorem WFT.wfc {x : S} (h : WFT x) : WFC x := ⟨h.wf.asc, h.wf.lt, h.blocksLt⟩
+
+/-- … and, given the bound hypotheses, it is right: the state of the exhaustive loop -/
+theorem blockWand_total {σ : Type} {cb : σ → Nat → Nat → σ × Nat} {R : σ → Nat → Prop}
+    (hcb : MonoCb cb R) (fuel : Nat) (s : σ) (θ : Nat) (hR : R s θ) (scorers : List S)
+    (hwf : ∀ x, x ∈ scorers → WFT x) (hfresh : ∀ x, x ∈ scorers → x.skip = 0)
+    (hfuel : lenSum scorers < fuel) :
+    blockWand cb fuel (s, θ) scorers = .ok (exhRange cb (tot scorers) 0 T (s, θ)) := by
+  obtain ⟨out, hout⟩ := blockWand_completes hcb fuel s θ hR scorers (fun x hx => (hwf x hx).wfc) hfresh hfuel
   rw [hout, blockWand_eq_exhaustive hcb fuel s θ hR scorers (fun x hx => (hwf x hx).wf) out hout]
 
 end TantivyModel.BlockWand
